@@ -128,7 +128,13 @@ def absorb_kernel_helpers(F, is_kernel_candidate, max_depth=3, max_blocks=400, i
             cs = callers.get(q, set())
             if not cs or q in cs:
                 continue   # never called, or recursive
-            if all((c in cands and c != q) or c in absorbed for c in cs) and any(c in cands or c in absorbed for c in cs) and \
+            def iterates(x):
+                return any(t['callee'] == 'std::iter::Iterator::next' for bi, t in calls_in(x))
+            # a kernel-shaped function that iterates is a kernel in its own right unless every caller is such a kernel too (then
+            # it is a helper extracted from kernels); called from an entry point or from a dispatcher it stays separate
+            real_kernel = is_kernel is not None and is_kernel(b) and iterates(b) and \
+                not all(c in bodies and is_kernel(bodies[c]) and iterates(bodies[c]) for c in cs)
+            if all((c in cands and c != q) or c in absorbed for c in cs) and any(c in cands or c in absorbed for c in cs) and not real_kernel and \
                     not (is_kernel is not None and is_kernel(b) and any(c not in absorbed and not is_kernel(bodies[c]) for c in cs if c in bodies)):
                 # (a kernel-shaped function called from an entry point is a real kernel, not a helper of the entry)
                 absorbed.add(q)
